@@ -568,15 +568,16 @@ struct Mid {
     lookup: Option<Vec<(u64, u8)>>,
     fetched: Option<Vec<(u64, Vec<u64>)>>,
     dup_add_ok: Option<bool>,
+    add_ok: Option<bool>,
     cleared: bool,
 }
 
 /// Engine B: "noblock; other op; get" under every schedule: what is observed must be explained by the
 /// merge taking effect at one point between the call and get().
-fn noblock_schedules(rep: &Report, tier: Tier) {
+pub fn noblock_schedules(rep: &Report, tier: Tier) {
     // (shards, destination id, operation while the merge is in flight): 0 shard_stats, 1 lookup, 2 fetch of the
-    // destination, 3 add_track with the destination's id (a duplicate), 4 clear
-    let cfgs: Vec<(usize, u64, u8)> = vec![(1, 1, 0), (2, 1, 0), (2, 1, 1), (2, 2, 0), (2, 1, 2), (1, 1, 3), (2, 1, 3), (1, 1, 4), (2, 1, 4), (1, 1, 2)];
+    // destination, 3 add_track with the destination's id (a duplicate), 4 clear, 5 add (observation + attribute update by id) to the destination
+    let cfgs: Vec<(usize, u64, u8)> = vec![(1, 1, 0), (2, 1, 0), (2, 1, 1), (2, 2, 0), (2, 1, 2), (1, 1, 3), (2, 1, 3), (1, 1, 4), (2, 1, 4), (1, 1, 2), (1, 1, 5), (2, 1, 5)];
     let mut total = 0u64;
     let cfgs: Vec<(usize, u64, u8, bool)> = cfgs.iter().map(|c| (c.0, c.1, c.2, false)).chain(cfgs.iter().map(|c| (c.0, c.1, c.2, true))).collect();
     for (shards, dest, other, fine) in cfgs {
@@ -611,6 +612,9 @@ fn noblock_schedules(rep: &Report, tier: Tier) {
                         let (dup, _) = external_track(dest);
                         mid.dup_add_ok = Some(store.add_track(dup).is_ok());
                     }
+                    5 => {
+                        mid.add_ok = Some(store.add(dest, 0, Some(1.0), None, Some(HUpdate { add: 1, group: None })).is_ok());
+                    }
                     _ => {
                         store.clear();
                         mid.cleared = true;
@@ -630,6 +634,22 @@ fn noblock_schedules(rep: &Report, tier: Tier) {
                     let initially_present = model.contains_key(&dest);
                     let fetched = mid.fetched.as_ref().map_or(false, |f| !f.is_empty());
                     let removed = fetched || mid.cleared;
+                    if let Some(add_ok) = mid.add_ok {
+                        // an add by id that raced with the merge: it reported success, so its attribute update is in the
+                        // stored destination - whether it ran before or after the merge
+                        let before = model.get(&dest).map(|t| t.updates).unwrap_or(0);
+                        let after = tracks_after.iter().find(|t| t.id == dest);
+                        *outcomes.lock().unwrap().entry(format!("mid={mid:?} ok={ok}")).or_insert(0) += 1;
+                        let good = add_ok && *ok && after.map_or(false, |t| t.updates == before + 1 && t.history.contains(&9));
+                        if !good {
+                            rep.violation(Violation {
+                                key: "merge_noblock/add-while-in-flight-lost".into(),
+                                what: format!("store.add({dest}, ..) returned ok={add_ok} while a merge into {dest} was in flight (get() ok={ok}); afterwards the stored track is {after:?}, it had {before} attribute updates before"),
+                                replay: json!({"engine":"B","shards":shards,"dest":dest,"other_op":other,"granularity":if fine { "fine" } else { "macro" },"schedule":x.schedule_json()}),
+                            });
+                        }
+                        return;
+                    }
                     let explained = if *ok {
                         // the merge happened: the destination existed; if it was fetched / cleared afterwards it is gone
                         initially_present && applied_possible && (removed || tracks_after.iter().any(|t| t.id == dest && Some(t) == m_applied.get(&dest)))
